@@ -257,12 +257,12 @@ def queries(tier):
     pre = (['l0 + l1 + l2 + l3 + l4 <= 2', 'not pack or (l0 and l1)'] if tier == 'quick' else ['not pack or (l0 and l1)']) + \
           ['aid == 0 or (att > 0 and i0 == 0)', 'a2 == 0 or (att > 0 and l0 + l1 + l2 + l3 + l4 <= 1)']
     qs = [Query(name='old', body=body_old, params=base + [I('var', 0, 1), I('fmt', 0, 2)], pre=pre + (['fmt == var'] if tier == 'quick' else []),
-                split=['t0', 'att'], timeout=600 if tier == 'quick' else 1700,
+                split=['t0', 'att', 'dp'], timeout=600 if tier == 'quick' else 1700,
                 witnesses=[({}, dict(w, var=0, fmt=0)), ({}, dict(w, var=1, fmt=1, t0=1))],
                 bound='3-asset L_INH models (first asset G1/G2/Am with id -5 or 0, ids 3 and 12; defenses; links L (separate or two members in one field), L1, L2, '
                       'Dup_G1_O / Dup_G2_O; attacker with id 40 or 0 and 0, 1 or 4 entry points incl. two on one asset; defense dP (enabled by default) left, set to 0.5 or switched to 0) emitted in the 0.0.39 layout (both association '
                       'variants; json / yml / yaml) and loaded by load_model_from_older_version'),
-          Query(name='scad', body=body_scad, params=base + [I('ori', 0, 1)], pre=pre, split=['t0', 'att'], timeout=600 if tier == 'quick' else 1700,
+          Query(name='scad', body=body_scad, params=base + [I('ori', 0, 1)], pre=pre, split=['t0', 'att', 'dp'], timeout=600 if tier == 'quick' else 1700,
                 witnesses=[({}, dict(w, **{'ori': 0})), ({}, dict(w, **{'ori': 1, 't0': 1, 'i0': 0}))],
                 bound='the same models emitted as a .sCAD archive (.eom XML, one association element per linked pair in alternating source/target '
                       'orientation, Attacker objects with firstSteps associations) and loaded by load_model_from_scad_archive')]
